@@ -247,3 +247,75 @@ func VerifHarness_RuntimeSpans() {
 	errors.VerifAssert("interrupt-position-names-the-file", o.span.Filename == verifFile)
 	errors.VerifAssert("interrupt-position-lies-in-the-failing-construct", o.span.Start.Line == line && o.span.End.Line == line)
 }
+
+// verifCheckReportedSpans: every syntax error and diagnostic of one analysis names a position inside `text`
+// (or the whole-file position), names the file, and renders.
+func verifCheckReportedSpans(an verifAnalysis, text string) {
+	for _, e := range an.syntax {
+		ok := verifSpanValid(e.Span, text)
+		if !ok {
+			errors.VerifTag("message", errors.VerifNorm(e.Message))
+		}
+		errors.VerifAssert("syntax-error-position-is-inside-the-text", ok)
+		errors.VerifUntag("message")
+		if ok {
+			p, m := errors.VerifPanics(func() { e.Display(text) })
+			if p {
+				errors.VerifTag("panic", errors.VerifNorm(m))
+			}
+			errors.VerifAssert("syntax-error-renders", !p)
+			errors.VerifUntag("panic")
+		}
+	}
+	for _, d := range an.diags {
+		if d.Span.Filename != verifFile {
+			continue // positions inside an imported module refer to its text
+		}
+		ok := verifSpanValid(d.Span, text)
+		if !ok {
+			errors.VerifTag("message", errors.VerifNorm(d.Message))
+		}
+		errors.VerifAssert("diagnostic-position-is-inside-the-text", ok)
+		errors.VerifUntag("message")
+		if ok {
+			p, m := errors.VerifPanics(func() { d.Display(text) })
+			if p {
+				errors.VerifTag("panic", errors.VerifNorm(m))
+			}
+			errors.VerifAssert("diagnostic-renders", !p)
+			errors.VerifUntag("panic")
+		}
+	}
+	errors.VerifReached("spans-checked")
+}
+
+// verifSpanOverlaps: the (valid, non-whole-file) span shares at least one character with an occurrence of culprit.
+func verifSpanOverlaps(sp errors.Span, text string, culprit string) bool {
+	if sp.Start.Line == 0 || culprit == "" {
+		return false
+	}
+	lines := strings.Split(text, "\n")
+	offset := func(line, col uint) int {
+		o := 0
+		for i := uint(0); i+1 < line && int(i) < len(lines); i++ {
+			o += len([]rune(lines[i])) + 1
+		}
+		return o + int(col) - 1
+	}
+	a, b := offset(sp.Start.Line, sp.Start.Column), offset(sp.End.Line, sp.End.Column)
+	runes := []rune(text)
+	cr := []rune(culprit)
+	for i := 0; i+len(cr) <= len(runes); i++ {
+		match := true
+		for k := range cr {
+			if runes[i+k] != cr[k] {
+				match = false
+				break
+			}
+		}
+		if match && a <= i+len(cr)-1 && b >= i {
+			return true
+		}
+	}
+	return false
+}
